@@ -5,7 +5,7 @@
 From MJ Require Import Common.Base Lang.Syntax Lang.Meta Lang.Interp C03.Proofs.
 From MJ Require Import C04.Model L2.Instr L2.Compile L2.Vm L2.Simulation.
 From MJ Require Import C04.Spec.
-From MJ Require Import C03.L2Pos C03.L2Base C03.L2Inv C03.L2Expr C03.L2Stmt C03.L2Wf C03.L2Proofs C03.L2Err.
+From MJ Require Import C03.L2Pos C03.L2Base C03.L2Inv C03.L2Expr C03.L2Stmt C03.L2Wf C03.L2Proofs C03.L2Err C03.L2ErrStmt.
 
 (* loop.index, index0, revindex, revindex0, first, last and length describe the position [i] in a
    sequence of length [n] actually iterated *)
@@ -182,9 +182,8 @@ Proof. exact compile_len_indep. Qed.
    state - same output in particular - or stops at the counter overflow of a filtered loop with
    2^127 - 1 kept items.  Every construct of the Lang syntax is covered (no side condition beyond
    what the parser guarantees).  What the theorem does NOT say:
-     * the failing direction: it is a forward simulation of successful runs; that an error of the
-       interpreter is the same error of the VM is proved for expressions without calls
-       (compile_expr_error below) and otherwise observed by the three-way agreement of the check only;
+     * anything about runs the interpreter does not finish (OutOfGas); runs it ends with an error are
+       the subject of compile_error below;
      * `loop(...)` recursion and everything else outside the Lang syntax (tuples, maps, slices, method
        calls, blocks, includes ...): correspondence of the check only. *)
 Theorem compile_correct : forall c fuel body s,
@@ -194,28 +193,40 @@ Theorem compile_correct : forall c fuel body s,
   (exists σo, star c (compile_template body) (init_vm c) σo /\ overflow (compile_template body) σo).
 Proof. exact template_correct. Qed.
 
-(* The failing direction, expressions without calls ([pure], C04/Spec.v): if the interpreter's
-   evaluation of e ends in the error kind k - invalid operand kinds, division by zero, overflow,
-   undefined under a strict mode, unknown filter / test, a failing filter ... -, the VM started at the
-   first instruction of e's code runs into a step that fails with the SAME kind k (after evaluating
-   exactly the operands the interpreter evaluated successfully before).  A folded constant never
-   fails at run time (folded_constant_never_fails: what C04's fold_defers_errors says for fuel >=
-   depth, here for every fuel). *)
+(* The failing direction.  compile_error: whenever the reference interpreter ends the rendering of a
+   template of the core fragment with the error kind k - invalid operand kinds, division by zero,
+   overflow, undefined under a strict mode, an unknown filter / test / function, a failing filter, an
+   item that cannot be unpacked, a non-iterable loop subject, too many / unknown / duplicate macro
+   arguments, ... - eval_impl's loop on the compiled template stops with the SAME kind k (or at the
+   counter overflow, as above); wherever the error arises: in a nested expression, a default value, a
+   loop filter, a macro or caller body however deep in the call stack.  Nothing is claimed about the
+   output written before the error.  Together with compile_correct (the VM is a function): whatever
+   the interpreter's verdict on a template, Ok s or Err k, it is the VM's.
+   compile_expr_error: the same for an expression anywhere in a program (after evaluating exactly the
+   operands the interpreter evaluated successfully before).  A folded constant never fails at run
+   time (folded_constant_never_fails: what C04's fold_defers_errors says for fuel >= depth, here for
+   every fuel). *)
 Theorem folded_constant_never_fails : forall c esc fuel e v0, as_const e = Some v0 ->
   forall s k, eval c fuel esc s e = Err k -> False.
 Proof. exact fold_noerr_all. Qed.
 
-Theorem compile_expr_error : forall c C, cfg_ok C c -> wf_code C -> forall fuel esc e, l2_expr e = true -> pure e = true ->
+Theorem compile_expr_error : forall c C, cfg_ok C c -> wf_code C -> forall fuel esc e, l2_expr e = true ->
   forall s k, eval c fuel esc s e = Err k -> Inv C s ->
   forall base stk escs caps its calls, code_at C base (compile_expr e base) ->
   (exists σ', star c C (mkVm base stk s esc escs caps its calls) σ' /\ step c C σ' = Err k)
   \/ (exists σo, star c C (mkVm base stk s esc escs caps its calls) σo /\ overflow C σo).
 Proof.
-  intros c C Hc Hw fuel esc e Hl Hp s k He Hi base stk escs caps its calls Hcode.
-  destruct (err_expr_all c C Hc Hw fuel esc e Hl Hp s k He Hi base stk escs caps its calls Hcode) as (σ' & S & H).
-  destruct (starO_inv _ _ _ _ S) as [S1|(o & S1 & O)]; [|right; eauto].
-  destruct H as [H|H]; [left|right]; eauto.
+  intros c C Hc Hw fuel esc e Hl s k He Hi base stk escs caps its calls Hcode.
+  destruct (err_levels c C Hc Hw fuel) as (Ee & _).
+  exact (errs_run c C _ _ (Ee esc e Hl s k He Hi base stk escs caps its calls Hcode)).
 Qed.
+
+Theorem compile_error : forall c fuel body k,
+  forallb (fun p => data_value (snd p)) (c_root c) = true ->
+  forallb (l2_stmt false) body = true -> Interp.run c fuel body = Err k ->
+  (exists n, run_template c n (compile_template body) = Err k) \/
+  (exists σo, star c (compile_template body) (init_vm c) σo /\ overflow (compile_template body) σo).
+Proof. exact template_err. Qed.
 
 (* non-vacuity of the error theorem: 1 // (n - n) with n from the context fails with InvalidOperation in
    the interpreter, and the VM on the compiled code stops with the same kind *)
@@ -226,6 +237,21 @@ Example l2_error_witness :
   l2_expr e = true /\ pure e = true /\ as_const e = None /\
   eval cfg 5 false (init_state) e = Err E_InvalidOperation /\
   run_template cfg 100 (compile_template [SEmit e]) = Err E_InvalidOperation.
+Proof. vm_compute. repeat split. Qed.
+
+(* ... and at the statement level: a division by zero in a macro body, reached through a call block
+   from the body of a filtered loop whose second item passes the filter *)
+Example l2_error_witness_stmt :
+  let z := 100 in let m := 101 in let p := 102 in
+  let prog :=
+    [SMacro m [p] [(p, EConst (LInt 1))] [SEmit (EBin OFloorDiv (EConst (LInt 6)) (EVar p)); SEmit (ECall N_caller [] [])];
+     SFor (TVar z) (EList [EConst (LInt 2); EConst (LInt (-1)); EConst (LInt 0)])
+          (Some (ECmp (EVar z) [(CGe, EConst (LInt 0))]))
+          [SCallBlock m [EVar z] [SRaw [99]]] None false] in
+  let cfg := mkCfg Lenient [] false in
+  forallb (l2_stmt false) prog = true /\
+  Interp.run cfg 40 prog = Err E_InvalidOperation /\
+  run_template cfg 400 (compile_template prog) = Err E_InvalidOperation.
 Proof. vm_compute. repeat split. Qed.
 
 (* non-vacuity: a program with every statement constructor (chained comparison with a variable,
@@ -295,3 +321,4 @@ Print Assumptions code_length_independent_of_break_target.
 Print Assumptions compile_correct.
 Print Assumptions folded_constant_never_fails.
 Print Assumptions compile_expr_error.
+Print Assumptions compile_error.
